@@ -1263,6 +1263,14 @@ class Ctx:
         m = models.lookup_pattern(key)
         if m is not None:
             return ("model", m, t)
+        # the same inherent method may be printed with the core:: or the std:: (alloc) path
+        for a_, b_ in (("std::slice::<impl [_]>::", "core::slice::<impl [_]>::"), ("core::slice::<impl [_]>::", "std::slice::<impl [_]>::"),
+                       ("std::str::<impl str>::", "core::str::<impl str>::"), ("core::str::<impl str>::", "std::str::<impl str>::"),
+                       ("std::slice::<impl [_]>::", "std::vec::Vec::"), ("core::slice::<impl [_]>::", "std::vec::Vec::")):
+            if key.startswith(a_):
+                m = models.exact.get(b_ + key[len(a_):])
+                if m is not None:
+                    return ("model", m, t)
         raise Unmodelled("no model for callee %s   [key %s]" % (path, key))
 
     def _is_crate_path(self, segs):
